@@ -44,7 +44,8 @@ MEMO_TECH = TECH % ('call/management/restart/fault histories over the decorator 
 for _p, _txt, _orc in [
     ('C01', 'every value returned through any of the 12 decorators, at every step of seeded histories mixing calls '
             '(several spellings), load/dump/clear/toggle/swap, restarts on the same location, clock steps, calls of a second '
-            'instance on the same archive and of a sibling function sharing the code object (other defaults), is '
+            'instance on the same archive and of a sibling function sharing the code object (other defaults), calls that pass '
+            'one list object again after mutating it in place, is '
             'compared with a direct evaluation of the undecorated function; no exception other than the function\'s own '
             'may reach the caller', 'a direct evaluation of the undecorated function at every call'),
     ('C02', 'an evaluation is accepted only if, just before the call, the key was neither resident nor in the attached '
@@ -56,14 +57,17 @@ for _p, _txt, _orc in [
             'toggles, restarts and dill copies; maxsize 0/None in keyword and positional spelling; purge empties memory '
             'on overflow of an archived cache', 'the capacity invariant after every call'),
     ('C06', 'call-only histories from an empty cache (plus raising calls), up to 400 steps with hit bursts that trigger '
-            'the LRU queue compaction, caches of 30-40 entries (LFU batch > 2) and sweep workloads that tie all use counts: the set leaving memory on each overflow must be exactly what LRU/MRU/LFU/RR '
+            'the LRU queue compaction, caches of 1000+ entries with 10000+ hits between overflows, caches of 30-40 entries (LFU batch > 2) and sweep workloads that tie all use counts: the set leaving memory on each overflow must be exactly what LRU/MRU/LFU/RR '
             'select according to last-use stamps and use counts kept by the harness', 'an executable policy model (last-use stamps, use counts) after every call'),
     ('C07', 'every key leaving memory during a call must be in the attached archive with the same value, no archived '
-            'entry may change or vanish, and in strict runs every computed result stays retrievable', 'the observed memory/archive contents before and after every call'),
+            'entry may change or vanish, and in strict runs every computed result stays retrievable; in "unenc" runs some '
+            'results are refused by every encoding: the call or dump() may fail with the encoder\'s error but must lose '
+            'nothing', 'the observed memory/archive contents before and after every call'),
     ('C15', 'info() must equal (hits, misses, loads) classified from the evaluation log and residency before each call, '
             'plus configured maxsize and current size, after every step of histories with clear/load/dump/toggle/'
             'restart/clone, raising calls and safe fallbacks; calls made through a second function built from the SAME '
-            'decorator object, and calls of a second instance on the same archive, must not move the counters', 'counters derived from the evaluation log after every step'),
+            'decorator object, and calls of a second instance on the same archive, must not move the counters; runs of '
+            'hundreds of hits and a recursive function are accounted exactly', 'counters derived from the evaluation log after every step'),
     ('C16', 'injected exceptions at seeded calls: the same exception object reaches the caller after one evaluation and '
             'info/cache/archive are unchanged; a twin world without those calls must show identical observations at '
             'every other step (exposes corrupted recency/frequency state); safe variants with unhashable/unencodable '
@@ -79,7 +83,7 @@ for _p, _txt, _orc in [
 
 CHECKS['C13'] = ('crashsim', 'fault_enumeration', '4',
     'per sampled scenario (persistent backend x encoding x prior contents x one mutating operation incl. dump/sync from a '
-    'cached handle and merely opening) EVERY crash point at file-system/SQL-call granularity is executed - process killed '
+    'cached handle, merging another archive object, and merely opening; sqlite tables also with 500-1100 history rows) EVERY crash point at file-system/SQL-call granularity is executed - process killed '
     'before each mkdir/open-for-write/raw write/close/unlink/rmdir/rename/DML/commit, plus a partial-write crash for every '
     'raw write - and a fresh process must read the survivor without error and see old-or-new for touched keys, untouched '
     'keys unchanged and no foreign key',
@@ -96,7 +100,8 @@ CHECKS['C14'] = ('racesim', 'exploration', '4',
     'invoke/return history is checked: nobody fails, every value read was stored for that key by an overlapping or '
     'preceding write, no never-stored key appears, stable keys are not missed, a single-file reader sees one complete '
     'dictionary that existed, a fresh handle sees every acknowledged write; sqlite busy-waits run on virtual time and a '
-    'busy timeout is accepted only while another client has an operation in flight (finished clients stay alive, idle)',
+    'busy timeout is accepted only while another client has an operation in flight (finished clients stay alive, idle); '
+    'clients read clocks that are 0 / 90 / +-3600 s apart',
     'one sampled schedule per scenario (not all interleavings); interleaving granularity is the intercepted Python-level '
     'call (C-level sequences inside sqlite / importlib are atomic); file archive limited to one writer plus readers/openers',
     'deterministic simulation with fault injection: seeded scheduler over real client processes parked at every intercepted '
